@@ -200,8 +200,11 @@ def a2_a5(chk, repo, rule_summary="C13-A2", summary_only=False):
     products = [[img("HH", "UBSR1.5RUD")], [img("HH", "UBSL1.1__D"), img("HV", "UBSL1.1__D")], [img(p_, "WBDR1.1__D", b_) for p_ in ("HH", "HV") for b_ in ("B1", "B2", "B3")],
                 [img("VV", "HBQR1.1__A"), img("VH", "HBQR1.1__A")], [img("HH", "WBDR1.1__D", "B2"), img("HV", "WBDR1.1__D", "B2"), img("HH", "WBDR1.1__D", "B1"), img("HV", "WBDR1.1__D", "B1")]]  # the last two: not in lexicographic order in the summary
     results = []
-    for images in products:
+    # each model product is opened in a process environment where no variable is set; the first two also where every variable the
+    # package asks for is set to "1" (options the caller spells out are the caller's, whatever the environment says)
+    for images, environ in [(p_, "unset") for p_ in products] + [(p_, "1") for p_ in products[:2]]:
         I = Interp(repo)
+        I.environ = environ
         calls = []
         pid = images[0].split("-")[4]
         VOL, LED, TRL = f"VOL-{SID}-{pid}", f"LED-{SID}-{pid}", f"TRL-{SID}-{pid}"
